@@ -66,8 +66,9 @@ SnapPass(s) ==
   /\ UNCHANGED <<csvars, snap, nh, out, fl>>
 
 \* checkElectionForModify on the request's snapshot
-OpVerdict(s, o) ==
-  LET sn == snap[s] IN
+\* (the messages of one stream are processed in the order in which they arrive: the snapshot of a request reflects exactly the
+\* announcements that preceded it on its own stream)
+OpVerdictSn(sn, s, o) ==
   IF o.eid = NoId THEN [k |-> "err", code |-> "FailedPrecondition"]     \* the operation carries no election id
   ELSE IF sn.master = "" \/ sn.cur = NoId THEN [k |-> "err", code |-> "Internal"]
   ELSE IF sn.last = NoId THEN [k |-> "err", code |-> "FailedPrecondition"]
@@ -76,6 +77,7 @@ OpVerdict(s, o) ==
   ELSE IF IdLT(sn.cur, o.eid) THEN [k |-> "err", code |-> "FailedPrecondition"]
   ELSE IF IdLT(o.eid, sn.cur) THEN [k |-> "failed", code |-> ""]
   ELSE [k |-> "rib", code |-> ""]
+OpVerdict(s, o) == OpVerdictSn(snap[s], s, o)
 
 ModOp(s) ==
   /\ hpc[s].st = "op"
